@@ -237,6 +237,35 @@ fn body(ctx: &mut Ctx) {
             ctx.sample(|| format!("a=+-{} against {} structured values (common powers of two spanning digits, shared odd factors) x 4 sign pairs", a.to_hex(), t.len()));
         }
     }
+    if ctx.space("G4") {
+        // dense LCG cofactors with a planted common factor g * 2^k
+        let lmax = tier.pick(3usize, 5usize);
+        let mut o = 0u64;
+        for lg in 1..=lmax {
+            for k in [0u64, 1, 63, 64, 65, 130] {
+                let take = ctx.mine(o);
+                o += 1;
+                if !take {
+                    continue;
+                }
+                let mut gd = alpha::lcg_digits(lg, k);
+                gd[0] |= 1;
+                let g = Nat::from_digits(&gd).shl(k);
+                for la in 1..=lmax {
+                    for lb in 1..=lmax {
+                        for salt in 0..2u64 {
+                            let a = g.mul(&Nat::from_digits(&alpha::lcg_digits(la, 10 + salt)));
+                            let b = g.mul(&Nat::from_digits(&alpha::lcg_digits(lb, 20 + salt)).shl(if salt == 1 { 70 } else { 0 }));
+                            for (sa, sb) in [(false, false), (false, true), (true, false), (true, true)] {
+                                pair(ctx, &Int::new(sa, a.clone()), &Int::new(sb, b.clone()), None);
+                            }
+                        }
+                    }
+                }
+                ctx.sample(|| format!("planted common factor g*2^{} ({} digits) times dense LCG cofactors up to {} digits", k, lg, lmax));
+            }
+        }
+    }
     if ctx.space("G3") {
         let a_set = alpha::dense(&alpha::SIGMA5, 3);
         let b_set = alpha::dense(&alpha::SIGMA5, tier.pick(2, 3));
